@@ -14,6 +14,7 @@ fn profile(thorough: bool) -> Profile {
         keygen: 8,
         refresh: 9,
         encaps: 6,
+        encaps_wide: 2,
         encaps_for: 12,
         check: 5,
         roundtrip: 9,
